@@ -1,6 +1,12 @@
 ------------------------------- MODULE Sb31Gen -------------------------------
 (* GEN form of C05: TLC enumerates (GEN_MODE = tour) or simulates (GEN_MODE = sim) ABSTRACT cases                    *)
-(*   [curve, nkeys, used, isk, ud, pck, rights, enc, nxp, rk : Seq(KeyClasses), ik : KeyClasses, cmds : Seq([t, dl])] *)
+(*   [curve, nkeys, used, isk, ud, pck, rights, enc, nxp, rk : Seq(KeyClasses), ik : KeyClasses, cmds : Seq([t, dl]), *)
+(*    given : [pck, rights, isk], dsc]                                                                                *)
+(* enc / isk are what the caller REQUESTS, given (Sb31Format!Givens) what it SUPPLIES: the harness hands the           *)
+(* constructors a part-common key of given.pck bits (0: none), access rights given.rights (-1: none) and the material   *)
+(* of an ISK certificate iff given.isk - whether requested or not (tour G: every combination of request and supply).    *)
+(* dsc = the optional description: "none" (argument left out), "empty", "text" (1 .. 20 characters), "any" (the harness   *)
+(* draws one of the three from VERIF_SEED).                                                                              *)
 (* rk[i] = value class of the root key at position i of the root-of-trust set, ik = value class of the image signing  *)
 (* key (Sb31Format!KeyClasses: full width / leading zero byte in X / in Y / in both); the harness takes a key of that  *)
 (* class from its pool.                                                                                              *)
@@ -19,7 +25,11 @@ Types == 1..14
 AllFull(n) == [i \in 1..n |-> "full"] \o <<>>
 Cfg(cv, nk, us, ik, ud, pck, rt, en, nx) ==
   [curve |-> cv, nkeys |-> nk, used |-> us, isk |-> ik, ud |-> ud, pck |-> pck, rights |-> rt, enc |-> en, nxp |-> nx,
-   rk |-> AllFull(nk), ik |-> "full", cmds |-> <<>>]
+   rk |-> AllFull(nk), ik |-> "full", cmds |-> <<>>, given |-> Requested(en, pck, rt, ik), dsc |-> "any"]
+Supplied(cfg, g) == [cfg EXCEPT !.given = g]
+Described(cfg, d) == [cfg EXCEPT !.dsc = d]
+Dscs == {"none", "empty", "text"}
+GivensOf(cfg) == Givens(cfg.enc, cfg.pck, cfg.rights, cfg.isk)
 Keyed(cfg, rk, ik) == [cfg EXCEPT !.rk = rk, !.ik = IF cfg.isk THEN ik ELSE "full"]
 With(cfg, cmds) == [cfg EXCEPT !.cmds = cmds]
 AC(t, dl) == [t |-> t, dl |-> dl]
@@ -52,6 +62,22 @@ KeyLemma == \A cv \in {32, 48}, c \in ShortClasses, ik \in BOOLEAN :
               /\ \A n \in 1..4, p \in 1..4 : p <= n => \E x \in TourR : x.curve = cv /\ x.nkeys = n /\ x.rk[p] = c
 ASSUME KeyLemma
 
+\* ---- tour G: what is SUPPLIED x what is REQUESTED - plain / encrypted (every key size and access right) x no ISK / ISK / ISK with user
+\*      data x both curves, each with EVERY supply the request admits: a plain container with no / a 128-bit / a 256-bit part-common key
+\*      x no / every access right, a container without ISK with / without the material of an ISK certificate; x the optional description
+\*      left out / empty / given
+GBase == {x \in AllCfgs : x.nkeys = 2 /\ x.used = 1 /\ ~x.nxp /\ x.ud \in {0, 4}}
+TourG == UNION {{With(Described(Supplied(c, g), d), <<AC(1, 0), AC(2, 300), AC(14, 0)>>) : g \in GivensOf(c), d \in Dscs} : c \in GBase}
+GivenLemma == \A cv \in {32, 48} :
+                /\ \A ik \in BOOLEAN, p \in GivenPcks, r \in GivenRights, d \in Dscs :
+                     \E x \in TourG : x.curve = cv /\ ~x.enc /\ x.isk = ik /\ x.given.pck = p /\ x.given.rights = r /\ x.given.isk /\ x.dsc = d
+                /\ \A en \in BOOLEAN, p \in GivenPcks, r \in GivenRights, d \in Dscs :
+                     (en => p # 0 /\ r # NoRights)
+                     => \E x \in TourG : x.curve = cv /\ x.enc = en /\ ~x.isk /\ ~x.given.isk /\ x.given.pck = p /\ x.given.rights = r /\ x.dsc = d
+                /\ \A x \in TourG : x.enc => x.given.pck = x.pck /\ x.given.rights = x.rights      \* what is requested is supplied
+                /\ \A x \in TourG : x.isk => x.given.isk
+ASSUME GivenLemma
+
 \* ---- a small configuration menu for the command tours
 FewCfgs == {Cfg(32, 1, 0, FALSE, 0, 128, 0, TRUE, FALSE), Cfg(48, 4, 2, TRUE, 4, 256, 3, TRUE, FALSE),
             Cfg(32, 2, 1, TRUE, 0, 256, 1, TRUE, TRUE), Cfg(48, 1, 0, FALSE, 0, 128, 2, FALSE, FALSE)}
@@ -75,7 +101,7 @@ TourC2 == {With(c, <<AC(t, 20), AC(u, 8)>>) : c \in TwoCfgs, t \in Types, u \in 
 TourD == {c \in FewCfgs : TRUE}                 \* no command at all
 \* large payloads: many blocks
 TourE == {With(c, <<AC(2, dl), AC(t, 36)>>) : c \in TwoCfgs, t \in {7, 9}, dl \in IF Full THEN {4096, 20000, 65536, 70001} ELSE {4096, 70001}}
-Tour == TourA \cup TourR \cup TourB \cup TourB2 \cup TourC1 \cup TourC2 \cup TourD \cup TourE
+Tour == TourA \cup TourR \cup TourG \cup TourB \cup TourB2 \cup TourC1 \cup TourC2 \cup TourD \cup TourE
 
 \* lemma of the tour (checked as an invariant): every 16-byte stream end x block 1..MaxBlocks is reached by tour B
 RECURSIVE SLen(_, _)
@@ -94,8 +120,13 @@ Grow == /\ ~done /\ Mode = "sim" /\ Len(case.cmds) < MaxCmds
 Keys == /\ ~done /\ Mode = "sim" /\ Len(case.cmds) = 0 /\ case.rk = AllFull(case.nkeys) /\ case.ik = "full"
         /\ \E v \in [1..case.nkeys -> KeyClasses] : \E c \in KeyClasses : case' = Keyed(case, v \o <<>>, c)
         /\ UNCHANGED done
+\* simulation: what is supplied next to the request is drawn before the first command (a disjunct of its own: the simulator draws a
+\* disjunct first, so a fair share of the simulated cases carries material that is not requested)
+Give == /\ ~done /\ Mode = "sim" /\ Len(case.cmds) = 0 /\ case.given = Requested(case.enc, case.pck, case.rights, case.isk)
+        /\ \E g \in GivensOf(case) : g # case.given /\ case' = Supplied(case, g)
+        /\ UNCHANGED done
 Finish == /\ ~done /\ (Mode = "tour" \/ Len(case.cmds) >= 1)
           /\ done' = TRUE /\ PrintT(ToJson(case)) /\ UNCHANGED case
 GInit == done = FALSE /\ case \in (IF Mode = "tour" THEN Tour ELSE AllCfgs)
-GNext == Keys \/ Grow \/ Finish
+GNext == Keys \/ Give \/ Grow \/ Finish
 =============================================================================
